@@ -61,7 +61,9 @@ pub fn read_varint<R: BufRead>(mut src: R) -> Result<u64, VarintError> {
         }
 
         src.consume(buf_len);
-        if index > MAX_VARINT_LEN {
+        if index >= MAX_VARINT_LEN {
+            // Ten bytes with the continuation bit set. Without this check the
+            // next iteration would examine zero bytes and loop forever.
             break;
         }
     }
